@@ -20,10 +20,20 @@ HK = 'pySDC/implementations/hooks/'
 
 
 def mk_two_steps(mk, nlevels=1):
-    """the step S the callback is about, and ANOTHER step T with different slot / counters that the hook saw just before"""
+    """the step S the callback is about, and ANOTHER step T with different slot / counters that the hook saw just before;
+    with nlevels > 1 the coarser levels carry arbitrary OTHER step sizes / residuals / sweep counters (records are about the level the callback names)"""
     steps = []
     for name in ('S', 'T'):
-        S = make_step(mk, M=2, name=name, symbolic_level=False, level_params=dict(dt=1.0))
+        if nlevels > 1:
+            from contracts.ctrl import LinearSpaceTransfer
+
+            S = make_step(mk, M=2, name=name, symbolic_level=False, level_params=dict(dt=1.0), nlevels=nlevels, space_transfer=LinearSpaceTransfer)
+            for l, Lc in enumerate(S.levels[1:], start=1):
+                Lc.params.dt = mk.real(f'{name}.coarse{l}.dt')
+                Lc.status.sweep = mk.int(f'{name}.coarse{l}.sweep')
+                Lc.status.residual = mk.real(f'{name}.coarse{l}.residual')
+        else:
+            S = make_step(mk, M=2, name=name, symbolic_level=False, level_params=dict(dt=1.0))
         type(S.status).add_attr('restarts_in_a_row')
         type(S.status).add_attr('restart')
         S.status.slot = 0 if name == 'S' else 1
@@ -64,8 +74,15 @@ class _HookBase(Contract):
         st.h.post_iteration(st.T, 0) if hasattr(st.h, 'post_iteration') else None
         st.h.pre_comm(st.T, 0)
 
+    def all_instances(self, tier):
+        out = list(self.instances(tier))
+        return out + [dict(i, nlevels=2) for i in out if 'nlevels' not in i]
+
     def build(self, inst, mk):
-        S, T = mk_two_steps(mk)
+        S, T = mk_two_steps(mk, nlevels=inst.get('nlevels', 1))
+        for X in (S, T):
+            for Lc in X.levels[1:]:
+                Lc.status.time = X.levels[0].status.time
         st = State(S=S, T=T, L=S.levels[0], h=self.make_hook(), inst=inst)
         self.extra_setup(st, mk)
         st.h.reset_stats()
